@@ -14,6 +14,7 @@ from fractions import Fraction
 from vh.core import MachineryError, guarded, guarded_timeout, Raised, same_evaluation
 from vh import xr
 
+INT_TABLE = {1: 1.0, 2: 3.0}          # whole-number rates, also held in integer arrays
 RATE_TABLES = [{1: 0.5, 2: 2.0}, {1: 1e-9, 2: 10.0}, {1: 0.1, 2: 0.7}, {1: 3.3e-7, 2: 5.25}, {1: 9.5, 2: 0.02}]
 
 
@@ -50,11 +51,13 @@ def run(chk, replay=None):
             return a
         return numpy.asfortranarray(a) if lay == 'F' else numpy.ascontiguousarray(a.T).T
 
-    def check_case(case, table, mult, lay='C', clay='C'):
+    def check_case(case, table, mult, lay='C', clay='C', dtype=None):
         # lay / clay: memory layout of the rate array and of the count array (same values per (cell, bin) in all of them)
         kind, rid, w = case['kind'], case['rid'], case['w']
         nc, nb = len(rid), len(rid[0])
         data = laid([[table.get(rid[c][b], 0.0) for b in range(nb)] for c in range(nc)], lay)
+        if dtype is not None:
+            data = data.astype(dtype)        # whole-number rates held in an integer array (the array's type is the caller's)
         wm = [[x * (mult if (c + b) % 2 == 0 else 1) for b, x in enumerate(row)] for c, row in enumerate(w)]
         rates = {i: Fraction(float(v)) for i, v in table.items()}
         exp = xr.evaluate(case['stat'], rates)
@@ -90,7 +93,7 @@ def run(chk, replay=None):
             if isinstance(second, Raised) or not xr.close(second, exp4, atol=1e-11 + 4 * extra):
                 bad.append((fnname + ' after the caller re-scaled the array in place', repr(second), str(exp4)))
         # public test level (only when every event sits in a positive-rate bin or the spec says -inf)
-        fc = B.forecast(data, layout=lay)
+        fc = B.forecast(data, layout=lay, dtype=dtype)
         cat = B.catalog(wm, nc, nb)
         n_act = sum(1 for r in wm for x in r if x > 0)
         n_pos = int((data > 0).sum()) if kind != 'BLLS' else int((data.sum(axis=1) > 0).sum())
@@ -167,6 +170,15 @@ def run(chk, replay=None):
                                                 'active-zero-rate-bin' if zero_active else 'finite'),
                               {'case': case, 'table': {str(k): v for k, v in table.items()}, 'mult': mult, 'lay': lay, 'clay': clay,
                                'mismatches': bad})
+        if vary.random() < 0.2:
+            dt = vary.choice(['int64', 'int32'])
+            bad = check_case(case, INT_TABLE, 1 + vary.randrange(2), 'C', 'C', dtype=dt)
+            if bad:
+                ok_cases.discard(ci)
+                nbad += 1
+                chk.violation('gen:%s:%s:%s' % (case['kind'], bad[0][0].split('(')[0],
+                                                'active-zero-rate-bin' if case['stat']['op'] == 'neginf' else 'dtype-' + dt),
+                              {'case': case, 'table': {str(k): v for k, v in INT_TABLE.items()}, 'dtype': dt, 'mismatches': bad})
         if ci in (50, 2000):
             chk.sample({'case': {'kind': case['kind'], 'rid': case['rid'], 'w': w}, 'xr_stat': case['stat']})
     chk.traces += len(ok_cases)
